@@ -9,6 +9,14 @@ CHECKS = {
          "all sequences up to depth 4 (quick) / 6 (thorough) over a 70-operation alphabet (mint/burn/transfer/transferX/lock/ticks; negative, zero, exact, over-balance and 2^70 amounts; wrong-length addresses; contract caller), state-deduplicated; every transition checks sum==totalSupply, no negative record, supply moves only by mint/burn, refused => empty diff, notification stream replays to the balances, agreement with a map-based model", "4.1"),
  "C02": ("chainmc", "explicit-state BFS over (from,to,amount,signer-set) transfers interleaved with Alphabet operations; authorisation oracle on every balance decrease",
          "all sequences up to depth 3 / 5 over ~200 operations: every transfer crossed with signer sets {from,to,stranger,Alphabet,from+Alphabet,nobody}, contract callers, wrong-length hashes; every decrease of any account must be covered by its witness, its own contract call or the Alphabet", "4.2"),
+ "C04": ("chainmc", "explicit-state BFS over put/putNamed/putMeta/delete/setEACL/time sequences on Container+NNS+Balance+Netmap+NeoFSID, lock-step registry model + raw storage scan",
+         "all sequences up to depth 5 / 7 over 2 owners x 4 blobs (two version-field offsets) x names, strangers, a 10-year clock jump; after every step every getter for every id (incl. a never-put one), list/containersOf/count as sets, NNS alias records, tombstones and a raw scan of all six key families", "4.4"),
+ "C06": ("chainmc", "explicit-state BFS over candidate/subscription/tick/next-block sequences on Netmap+Balance+probe subscribers, lock-step model",
+         "all sequences up to depth 5 / 7: newEpoch with epoch deltas -1/0/+1/+2/+3 by Alphabet/stranger/node, two probe subscribers (one rejects epoch 3), double and unauthorised subscriptions, several transactions per block and block advances; success iff witnessed, growing and not rejected; published maps in both formats, tick height, subscriber order, Balance unlock effect", "4.6"),
+ "C07": ("chainmc", "explicit-state BFS to fixpoint over the complete reachable candidate state space (2 keys x 2 lists x states x info versions) x all operations x signer sets",
+         "exhaustive: the frontier runs empty (961 states, ~90k transitions); both candidate lists, notifications, witness requirements, unknown states and malformed keys compared with a two-map model", "4.7"),
+ "C08": ("chainmc", "explicit-state BFS over tick^a resize tick^b resize tick^c histories (prefix tree with state de-duplication) against a slice-of-maps model with a keep counter",
+         "quick: counts {0,1,2,3,5,9,10,11,12}, <=14 epochs, <=2 resizes; thorough: counts 0..12, <=30 epochs; after every step snapshot(d) for all d, snapshotByEpoch/listNodes(e) for a window of epochs, netmap(), raw scan of ring slots and per-epoch lists, and a probe tick after every accepted resize", "4.8"),
  "C09": ("chainmc", "explicit-state BFS over lock/burn/transfer/tick sequences with up to 3 simultaneous locks, lock-step model of lock records",
          "all sequences up to depth 5 / 8; until in the past/present/future and 0, zero-amount locks, partial and full burns, ticks by +1/+2, direct balance.newEpoch; every tick must release exactly the expired locks, once, with the remaining balance", "4.9"),
 }
